@@ -63,7 +63,7 @@ class ForSys():
                                 term=term,
                                 metadata=metadata,
                                 timeseries=self.mesh,
-                                angle_limit=kwargs.get("angle_limit", np.pi),
+                                angle_limit=kwargs.get("angle_limit", np.inf),
                                 circle_fit_method=kwargs.get("circle_fit_method", "dlite"),)
 
 
